@@ -48,6 +48,8 @@ fn run_case(case: &Sexp) -> String {
     "sched_race" => conc::run_sched_race(body),
     "unsub_race" => conc::run_unsub_race(body),
     "handshake" => conc::run_handshake(body),
+    "guard_unwind" => conc::run_guard_unwind(body),
+    "share_reenter" => share::run_share_reenter(body),
     "locks" => locks::run_locks(body),
     "ileave" => ileave::run_ileave(body),
     "ileave2" => ileave2::run_ileave2(body),
